@@ -86,10 +86,20 @@ func c15Handler(raw json.RawMessage) (any, error) {
 		return out, nil
 	}
 	if err != nil {
+		// Directories get their recorded mode after all entries are extracted, in
+		// order of appearance. An unprivileged process therefore cannot finish
+		// exactly when a directory entry without owner search permission is FOLLOWED
+		// by a directory entry beneath it (whose own restore then fails).
 		unsearchable := false
-		for _, e := range arg.Entries {
-			if e.Kind == "dir" && e.Mode != 0 && e.Mode&0100 == 0 {
-				unsearchable = true
+		for i, e := range arg.Entries {
+			if e.Kind != "dir" || e.Mode == 0 || e.Mode&0100 != 0 {
+				continue
+			}
+			base := strings.Trim(filepath.ToSlash(filepath.Clean("/"+e.Name)), "/") + "/"
+			for _, f := range arg.Entries[i+1:] {
+				if f.Kind == "dir" && strings.HasPrefix(strings.Trim(filepath.ToSlash(filepath.Clean("/"+f.Name)), "/")+"/", base) && strings.Trim(filepath.ToSlash(filepath.Clean("/"+f.Name)), "/")+"/" != base {
+					unsearchable = true
+				}
 			}
 		}
 		if arg.UID != 0 && unsearchable && strings.Contains(err.Error(), "permission denied") {
